@@ -25,3 +25,19 @@ func (sm *scheduleManager) VerifFireAll() []string {
 func (sm *scheduleManager) VerifCronEntryCount() int {
 	return len(sm.cron.Entries())
 }
+
+// VerifFire runs the cron job registered for the crontab once, as the cron library would at its
+// time, and reports whether a job is registered for it. The job blocks until the tick is consumed.
+func (sm *scheduleManager) VerifFire(crontab string) bool {
+	entry, ok := sm.Entries[crontab]
+	if !ok {
+		return false
+	}
+	for _, e := range sm.cron.Entries() {
+		if e.ID == entry.EntryID {
+			e.Job.Run()
+			return true
+		}
+	}
+	return false
+}
